@@ -133,16 +133,24 @@ func (context *Context) ResolveToStruct(def ast.Type) bool {
 }
 
 func (context *Context) ResolveRefs(def ast.Type) ast.Type {
-	if !def.IsRef() {
-		return def
+	// references already followed, to protect against circular aliases.
+	visited := make(map[string]struct{})
+
+	for def.IsRef() {
+		if _, seen := visited[def.AsRef().String()]; seen {
+			return def
+		}
+		visited[def.AsRef().String()] = struct{}{}
+
+		referredObj, found := context.LocateObject(def.AsRef().ReferredPkg, def.AsRef().ReferredType)
+		if !found {
+			return def
+		}
+
+		def = referredObj.Type
 	}
 
-	referredObj, found := context.LocateObject(def.AsRef().ReferredPkg, def.AsRef().ReferredType)
-	if !found {
-		return def
-	}
-
-	return context.ResolveRefs(referredObj.Type)
+	return def
 }
 
 func (context *Context) BuildersForType(typeDef ast.Type) ast.Builders {
